@@ -233,9 +233,9 @@ var c20FieldsArg0 = []string{"new(One)", "new(*Ünit)", "new(xconf.Dup)", "new(*
 var c20BindArg0 = []string{"new(xconf.I)", "new(conf.I)", "new(I)", "new(S)", "nil", "(*I)(nil)", "new(*I)", "I(nil)", "new(interface{ M() })", "new(any)", "new(error)", "x", "new(F)", "new(G[int])", "&ps", "new(int)"}
 var c20BindArg1 = []string{"new(xconf.C)", "new(*xconf.T)", "new(xconf.T)", "new(conf.C)", "new(*conf.T)", "new(C)", "new(*S)", "new(S)", "C{}", "nil", "(*C)(nil)", "new(I)", "new(**S)", "new(G[int])", "&C{}", "new(*C)", "x", "new(*G[int])", "new(Pair[int, string])", "new(F)", "ps", "new(int)", "NewC()"}
 
-var c20ValueArg = []string{"xconf.Default", "xconf.T{A: 1}", "xconf.Fn", "xconf.Fn()", "xconf.Unexp{}", "conf.Default", "conf.T{A: 1}", "&conf.Default2", "conf.PT", "conf.Const", "conf.Fn", "os.Stdin", "conf.T{}.A", "NewS", "S{}", "func() {}", "Gen[int]", "G[int]{V: 1}", "Pair[int, string]{Key: 1}", "[...]int{1}", "struct{ A int }{1}", "tv.Method", "x", "&x", "*&x", "I(C{})", "any(1)", "unsafe.Pointer(nil)", "unsafe.Sizeof(x)", `len("a")`, "1 << 3", "'a'", "1.5", "2i", `"s"[0]`, "names[0]", "k", "one", "fv", "F(nil)", "up", "ps", "*ps", "ps.A", "[]S{{A: 1}}", "map[string]S{}", "(S{})", "S{}.A", "&S{}", "[2]int{}", "chan int(nil)", "(<-chan int)(nil)", "error(nil)", "true", "!true", "-x", "x + 1", "<-make(chan int)", "NewInt()", "fv()", "Gen[int]()", "new(S)", "interface{ M() }(C{})", "tv", "T{}", "C.M", "func(a int) int { return a }", "iota_", "a"}
+var c20ValueArg = []string{"func() int { _ = 1; return 2 }()", "func(_ int) int { return 2 }", "xconf.Default", "xconf.T{A: 1}", "xconf.Fn", "xconf.Fn()", "xconf.Unexp{}", "conf.Default", "conf.T{A: 1}", "&conf.Default2", "conf.PT", "conf.Const", "conf.Fn", "os.Stdin", "conf.T{}.A", "NewS", "S{}", "func() {}", "Gen[int]", "G[int]{V: 1}", "Pair[int, string]{Key: 1}", "[...]int{1}", "struct{ A int }{1}", "tv.Method", "x", "&x", "*&x", "I(C{})", "any(1)", "unsafe.Pointer(nil)", "unsafe.Sizeof(x)", `len("a")`, "1 << 3", "'a'", "1.5", "2i", `"s"[0]`, "names[0]", "k", "one", "fv", "F(nil)", "up", "ps", "*ps", "ps.A", "[]S{{A: 1}}", "map[string]S{}", "(S{})", "S{}.A", "&S{}", "[2]int{}", "chan int(nil)", "(<-chan int)(nil)", "error(nil)", "true", "!true", "-x", "x + 1", "<-make(chan int)", "NewInt()", "fv()", "Gen[int]()", "new(S)", "interface{ M() }(C{})", "tv", "T{}", "C.M", "func(a int) int { return a }", "iota_", "a"}
 
-var c20IfaceVal1 = []string{"xconf.C{}", "&xconf.T{}", "xconf.T{}", "C{}", "nil", "1", "G[int]{}", "Pair[int, string]{}", "&S{}", "ps", "S{}", "NewC()", "I(C{})", "x", "new(S)", "fv", "tv", "Gen[C]()", "NewI()", "(*S)(nil)"}
+var c20IfaceVal1 = []string{"func() I { _ = 1; return C{} }()", "func() I { switch v := any(1).(type) { default: _ = v }; return C{} }()", "func() C { var _, b = 1, 2; _ = b; return C{} }()", "func(_ int) I { return C{} }(1)", "xconf.C{}", "&xconf.T{}", "xconf.T{}", "C{}", "nil", "1", "G[int]{}", "Pair[int, string]{}", "&S{}", "ps", "S{}", "NewC()", "I(C{})", "x", "new(S)", "fv", "tv", "Gen[C]()", "NewI()", "(*S)(nil)"}
 
 // result types with a provider expression
 var c20Results = [][2]string{
@@ -392,7 +392,7 @@ func (cs *C20Case) files() map[string]string {
 			form = "wire.Bind(" + form + ")"
 		case "value":
 			form = "wire.Value(" + form + ")"
-		case "ivalue":
+		case "ivalue", "ivalue-needed":
 			form = "wire.InterfaceValue(" + form + ")"
 		}
 		needUnsafe = strings.Contains(form, "unsafe.")
@@ -413,6 +413,12 @@ func (cs *C20Case) files() map[string]string {
 			body = fmt.Sprintf("var FormSet = wire.NewSet(%s)\n\nfunc Inject() S {\n\tpanic(wire.Build(NewS))\n}\n", form)
 		case "directvar":
 			body = fmt.Sprintf("var FormVar = %s\n\nfunc Inject() S {\n\tpanic(wire.Build(NewS, FormVar))\n}\n", form)
+		case "needed":
+			// the injector's result is what the form provides (an interface
+			// value of type I), so that code is generated from the form
+			body = fmt.Sprintf("func Inject() I {\n\tpanic(wire.Build(%s))\n}\n", form)
+		case "needed-set":
+			body = fmt.Sprintf("var FormSet = wire.NewSet(%s)\n\nfunc Inject() (I, error) {\n\tpanic(wire.Build(FormSet))\n}\n", form)
 		}
 	}
 	switch cs.Import {
@@ -489,6 +495,13 @@ func c20All() []*C20Case {
 	for _, a0 := range c20BindArg0 {
 		for _, a1 := range c20IfaceVal1 {
 			add("ivalue", a0+", "+a1)
+			if a0 == "new(I)" || a0 == "(*I)(nil)" {
+				for _, cx := range []string{"needed", "needed-set"} {
+					for _, im := range imps {
+						out = append(out, &C20Case{Cat: "ivalue-needed", Form: a0 + ", " + a1, Ctx: cx, Import: im})
+					}
+				}
+			}
 		}
 	}
 	for _, r := range c20Results {
@@ -511,7 +524,7 @@ func c20All() []*C20Case {
 func genC20(all []*C20Case) *rapid.Generator[*C20Case] {
 	return rapid.Custom(func(t *rapid.T) *C20Case {
 		// category first so that small categories are not drowned by the big cross products
-		cat := rapid.SampledFrom([]string{"item", "item", "struct", "struct", "fields", "bind", "value", "value", "ivalue", "result", "result", "injector"}).Draw(t, "cat")
+		cat := rapid.SampledFrom([]string{"item", "item", "struct", "struct", "fields", "bind", "value", "value", "ivalue", "ivalue-needed", "result", "result", "injector"}).Draw(t, "cat")
 		var idx []int
 		for i, c := range all {
 			if c.Cat == cat {
